@@ -466,8 +466,62 @@ func sortedPair(c *RColl, vch string) string {
 // that fails only in queue order, while the two orders differ, is the
 // "computed, then overtaken before the enqueue" window and is reported under
 // its own rule id (overtake).
+// checkResumeFloor (C03 across a restart): a collection that is started from a checkpoint was replicated up to that
+// time before: the closing ticks acknowledged on its downstream channels reached at least the checkpoint's time. Once its
+// stream is registered again, nothing may be emitted on those channels at or below that time.
+func (r *RigR) checkResumeFloor(delivered map[string]map[int64]*srcRef) {
+	s := r.sim
+	for _, b := range r.sc.Colls {
+		if b.ResumeTs == 0 {
+			continue
+		}
+		for i, sv := range b.SrcV {
+			if i >= len(b.TgtV) {
+				continue
+			}
+			q := physOf(b.TgtV[i])
+			reg := -1
+			for _, st := range r.mq.All {
+				if st.VCh == sv && (reg < 0 || st.RegStep < reg) {
+					reg = st.RegStep
+				}
+			}
+			if reg < 0 {
+				continue
+			}
+			if r.handlerTargetOf(physOf(sv)) != q {
+				// a collection on the forward path raises the floor of its handler's own channel, not of the channel its
+				// packs are forwarded to: not judged (DESIGN.md, C03)
+				s.Probe("resume_floor_forwarded_not_judged")
+				continue
+			}
+			s.Probe("resume_floor_checked")
+			for _, p := range r.Packs {
+				if p.Queue != q {
+					continue
+				}
+				for _, m := range p.Msgs {
+					if m.Type == "tick" || m.Tag == 0 {
+						continue
+					}
+					vch, _ := r.vchanFor(p.CollID, p.SrcPCh)
+					ref := delivered[vch][m.Tag]
+					if ref == nil || ref.dp.Step <= reg {
+						continue // read before the resumed collection joined the channel
+					}
+					if m.Begin <= b.ResumeTs {
+						s.Violate("C03", "below_resume_floor", "message tag=%d of collection %d was emitted on %s with time %d after collection %d had joined that channel from a checkpoint at %d (stream registered at step %d, message read at step %d): the channel's time went back below what was acknowledged before the restart", m.Tag, p.CollID, q, m.Begin, b.ID, b.ResumeTs, reg, ref.dp.Step)
+						return
+					}
+				}
+			}
+		}
+	}
+}
+
 func (r *RigR) checkTime(delivered map[string]map[int64]*srcRef) {
 	s := r.sim
+	r.checkResumeFloor(delivered)
 	byQ := map[string][]*EmPack{}
 	for _, p := range r.Packs {
 		byQ[p.Queue] = append(byQ[p.Queue], p)
@@ -798,8 +852,11 @@ func (r *RigR) checkDrops(delivered map[string]map[int64]*srcRef, stopped map[in
 		}
 		if k.part != 0 {
 			p := c.part(k.part)
-			if p == nil || p.State == "dropped" {
+			if p == nil || (p.State == "dropped" && !p.PreTarget) {
 				continue
+			}
+			if p.State == "dropped" {
+				s.Probe("dropped_while_down_partition")
 			}
 			var ap *rOpState
 			for _, o := range r.ops {
